@@ -3,7 +3,7 @@ get_cached_or_compile with a scripted dist::Client: every stage x error class, r
 dist configured against no scheduler / a real scheduler without capacity / a wrong client token."""
 import json, os, re, shutil
 from vlib import *
-import sys_c13
+import sys_c13, sys_dist
 
 def run(ctx):
     findings = load_findings('C13')
@@ -27,10 +27,16 @@ def run(ctx):
         res = sys_c13.run(os.path.join(ctx.work, 'sys'), 'c13')
         ctx.evaluations += res['requests']; ctx.samples += res['samples'][:1]; ctx.cov['system_requests'] = res['requests']
         monitor_failures(ctx, res['fails'], findings, 'system dist monitor', rp)
+        res = sys_dist.run_histories(os.path.join(ctx.work, 'cluster'), 'c13d', ctx.seed * 7, 2 if ctx.quick() else 20, 12 if ctx.quick() else 30)
+        ctx.evaluations += res['requests']; ctx.distinct_nontrivial += res['distributed']; ctx.samples += res['samples'][:1]
+        ctx.cov['real_cluster'] = {k: v for k, v in res.items() if k not in ('fails', 'samples')}
+        if res['requests'] and not res['distributed']: ctx.broken.append('real cluster: no request was distributed (the comparison with local compiles is vacuous)')
+        monitor_failures(ctx, res['fails'], findings, 'real cluster (scheduler + build server + client)', rp)
+    ctx.rules.append('real cluster: request histories (source / header edits, -O / -D / -g, split dwarf, -MD, output paths, broken source, repeats) through a real scheduler + build server (OverlayBuilder, chroot stand-in for bubblewrap) with the build server killed / restarted and the scheduler killed on the way; every request compared with the direct compile (status, object, .dwo, .d), stored results must be served afterwards, a healthy cluster must really be used')
     ctx.rules.append('h_dist: one case per (stage x error class) of the scripted dist::Client — toolchain put {other, 4xx, too large}, alloc {no capacity, error, 4xx}, submit {job unknown, cannot cache, error}, '
                      'run {error, 4xx, job unknown, exit 1/2/42/127/255}, output write {first, second unwritable} — exhaustive over the model alphabet; system: scheduler down, real scheduler without build servers, wrong token; h_dist phase 2: a 9-step history (failing request twice, repair, repeat, result entries removed while preprocessor entries stay, header edit, repeat, break again twice) against a real disk cache in preprocessor-cache mode with a build server that records the unit it is handed')
-    ctx.assumptions += ['an emulated build server (scripted dist::Client) stands in for a real one']
-    ctx.notes.append('cannot run here: a real build server (needs bubblewrap or docker): toolchain packaging via ldd, the overlay sandbox and HTTPS are not exercised end to end; the remote argument vector (distArgs) is not modelled yet — partial')
+    ctx.assumptions += ['h_dist: an emulated build server (scripted dist::Client); real cluster: bubblewrap replaced by tools/fake_bwrap.c (chroot, no namespaces)']
+    ctx.notes.append('the real cluster exercises toolchain packaging, upload, overlay mount, input unpack and output collection end to end; bubblewrap itself and HTTPS to the build server are replaced / local; the remote argument vector (distArgs) is not modelled yet — partial')
 
 def replay(ctx, path):
     print(open(path).read()); return 0
